@@ -192,6 +192,15 @@ def pgOffVerdict (nlines : Nat) (h : Nat) (off : Int) : String :=
   let mx : Int := if (nlines : Int) - h > 0 then (nlines : Int) - h else 0
   if off < 0 ∨ off > mx then s!"FAIL offset {off} outside 0..{mx} ({nlines} lines, height {h})" else "ok"
 
+/-- Oracle, clamping: `Draw` changes the offset only as far as needed — the offset after the draw is the offset before it
+    (what the implementation reported last) moved to the nearest value in `0 … max 0 (lines − h)`, `lines` = the lines the
+    implementation reports AFTER the draw (so a re-wrap counts). -/
+def pgClampVerdict (before : Int) (nlines : Nat) (h : Nat) (off : Int) : String :=
+  let mx : Int := if (nlines : Int) - h > 0 then (nlines : Int) - h else 0
+  let lo : Int := if before < 0 then 0 else before
+  let want : Int := if lo > mx then mx else lo
+  if off = want then "ok" else s!"FAIL offset {before} clamped to 0..{mx} is {want}, Draw left {off} ({nlines} lines, height {h})"
+
 /-- Oracle, rows: row `r` shows line `off + r` (characters at their cumulative columns). -/
 def pgRowsVerdict (text : List Pager.Ch) (w h : Nat) (off : Int) (lines rows : List (List String)) : String :=
   let wOf (hx : String) : Int := match text.find? (fun c => hexOfBytes c.bytes = hx) with
@@ -243,6 +252,7 @@ def pgStep (s : Pager.St) (lastW : Int) (fresh : Bool) (op : List String) (impl 
           let ls := parseLines l
           combine [ (if fresh' then pgCompleteVerdict s.text w ls else "ok"),
                     pgOffVerdict ls.length h o,
+                    pgClampVerdict s.offset ls.length h o,
                     pgRowsVerdict s.text w h o ls (parseLines r) ]
         | _, _, _ => "FAIL Draw panicked or unparsable result"
       (.pg s' w fresh', s!"{mc}\t{impl}\t{v}")
